@@ -2,7 +2,7 @@
 
 use crate::alpha::*;
 use crate::c15::exec_ops;
-use crate::dev::{Chunk, Dev, Src};
+use crate::dev::{DevOp, Chunk, Dev, Src};
 use crate::harness::{err_string, guarded};
 use crate::rops::*;
 use crate::wprog::*;
@@ -36,6 +36,28 @@ fn run_with_device(dev: Dev, view: &Dev, p: &Program, src_chunk: Chunk, ctx: Opt
     }
     let r = w.finalize();
     let fired = view.with(|s| s.faults_fired);
+    // "whenever top-level finalize reports success the device holds the complete file": at this
+    // point (the writer is still alive) everything written must also have been flushed - on a
+    // device with a write-back cache only flushed data is held by the device
+    if r.is_ok() && view.with(|s| s.log_on) {
+        let (mut durable, mut all): (Vec<u8>, Vec<u8>) = (Vec::new(), Vec::new());
+        for op in view.with(|s| s.log.clone()) {
+            match op {
+                DevOp::Write { pos, data } => {
+                    let e = pos as usize + data.len();
+                    if all.len() < e {
+                        all.resize(e, 0);
+                    }
+                    all[pos as usize..e].copy_from_slice(&data);
+                }
+                DevOp::Flush => durable = all.clone(),
+            }
+        }
+        if durable != all {
+            let at = durable.iter().zip(all.iter()).position(|(a, b)| a != b).unwrap_or(durable.len().min(all.len()));
+            return (Some(("finalize-not-flushed".into(), format!("finalize returned Ok but the device writes after the last flush never reached a flush: flushed image {} bytes, written image {} bytes, first difference at byte {at}", durable.len(), all.len()))), true, fired);
+        }
+    }
     match r {
         Ok(()) => (None, true, fired),
         Err(e) => (Some(("finalize".into(), err_string(&e))), false, fired),
@@ -47,8 +69,15 @@ pub fn writer_faults(ctx: &Ctx) {
     let p = writer_program(ctx);
     // fault-free run: reference bytes and number of device operations
     let dev = Dev::empty();
+    dev.with(|s| s.log_on = true);
     let h = dev.handle();
     let (err, fin, _) = run_with_device(dev, &h, &p, Chunk::Full, None);
+    if let Some((what, msg)) = &err {
+        if what == "finalize-not-flushed" {
+            ctx.violation(format!("{P}/finalize-ok-but-not-flushed"), format!("{msg}; {}", describe(&p)));
+            return;
+        }
+    }
     if err.is_some() || !fin {
         ctx.violation(format!("{P}/program-failed"), format!("fault-free run failed: {err:?}; {}", describe(&p)));
         return;
